@@ -22,6 +22,8 @@ type TSpec struct {
 	Edge     func(b *ssa.BasicBlock, si int) []Mask // nil: identity
 	Callees  func(call ssa.CallInstruction) []*ssa.Function
 	NoReturn func(ins ssa.Instruction) bool
+	// GoAsCall (optional): treat this go statement as a synchronous call (the spawner provably waits for it)
+	GoAsCall func(g *ssa.Go) bool
 }
 
 // AllTo builds the transition "every state -> s".
@@ -192,9 +194,15 @@ func (ts *TS) intra(fn *ssa.Function, in Mask, check func(ins ssa.Instruction, m
 			if cur == 0 {
 				continue
 			}
-			switch ins.(type) {
-			case *ssa.Defer, *ssa.Go:
-				// deferred calls take effect at RunDefers; a go statement runs elsewhere
+			switch g := ins.(type) {
+			case *ssa.Defer:
+				// deferred calls take effect at RunDefers
+				continue
+			case *ssa.Go:
+				// a go statement runs elsewhere, unless the spawner is known to wait for it
+				if ts.Spec.GoAsCall != nil && ts.Spec.GoAsCall(g) {
+					cur = ts.callEffect(g, cur, summary, enter, final)
+				}
 				continue
 			}
 			if ts.Spec.NoReturn != nil && ts.Spec.NoReturn(ins) {
